@@ -946,6 +946,16 @@ func (fx *Fx) specCall(env *SpecEnv, e *SCall) Val {
 			nn := *env
 			nn.st, nn.inOld = hs, false
 			return fx.specEval(&nn, e.Args[1])
+		case "unchangedKind":
+			// unchangedKind(K): no event of kind K was logged since the old state (all its counters are unchanged)
+			kn, ok := e.Args[0].(*SIdent)
+			if !ok || evKinds[kn.Name] == 0 {
+				sfail("unchangedKind(Kind)")
+			}
+			k := evKinds[kn.Name]
+			ost := env.old
+			return Val{T: fmt.Sprintf("(and (= (select %s %d) (select %s %d)) (= (select %s %d) (select %s %d)))",
+				st.heap("CNT", cntSort), k, ost.heap("CNT", cntSort), k, st.heap("CNC", cntSort), k, ost.heap("CNC", cntSort), k), S: "Bool", GT: boolT}
 		case "ndirect", "ndirectTrue":
 			// ndirect(code("f")) / ndirectTrue(code("f")): direct calls of f made so far by this activation (callee flagged
 			// countresult), and how many of them returned true
@@ -1026,6 +1036,9 @@ func (fx *Fx) specCall(env *SpecEnv, e *SCall) Val {
 			return Val{T: fmt.Sprintf("(%s %s)", name, cur.T), S: "Int", GT: intT}
 		case "held":
 			return Val{T: fmt.Sprintf("(select %s %s)", st.heap("LK", "(Array Int Int)"), arg(0).T), S: "Int", GT: intT}
+		case "oncedone":
+			// oncedone(mu(x.f)): the sync.Once stored in field f of x has run (or is running) its callback
+			return Val{T: fmt.Sprintf("(select %s %s)", st.heap("ONCE", "(Array Int Bool)"), arg(0).T), S: "Bool", GT: boolT}
 		case "has":
 			// has(m, k): key present in map
 			m, k := arg(0), arg(1)
